@@ -16,7 +16,7 @@ from ..refs import pbm as ref
 
 LEVEL = "exploration"
 ASSUMPTIONS = [
-    "revert() is only generated while a backup taken after the last reset/re-mesh exists (the code documents the backup as overwritten by reset)",
+    "revert() without a backup taken since the last reset/re-mesh (the code documents the backup as overwritten by reset) is only required to leave a valid grid; with a backup it must restore it exactly",
     "constructor arguments keep 4 <= minBins <= maxBins, cMin > 0, and every requested class count exceeds minBins/2 (below that the automatic adjustment indexes past the grid: IndexError, treated as outside the admissible domain, see DESIGN.md)",
     "'covers the populated range' = the new grid contains every class holding a non-zero population",
     "recording is not part of this state machine (it is exercised through the precipitation model in C02/C20)",
@@ -179,7 +179,13 @@ def check_history(case):
             backup = (p.PSD.copy(), p.PSDbounds.copy())
         elif name == "revert":
             if backup is None:
-                out.label("revert_skipped")
+                # no backup was taken since the last reset / re-mesh: whatever revert() restores, the grid must stay a valid one
+                # (the invariants after the step judge it; the content is not prescribed by the statement)
+                p.revert()
+                out.label("revert_without_backup")
+                _invariants(p, out, step, "revert without backup")
+                if np.any(n0 > 0):
+                    grid_changed_after_pop = True
                 continue
             p.revert()
             if not (np.array_equal(p.PSD, backup[0]) and np.array_equal(p.PSDbounds, backup[1])):
